@@ -43,6 +43,7 @@ class TScenario:
     policy: str = "rr"                  # rr | seeded
     seed: int = 0
     max_steps: int = 6000
+    uuid_seed: int = 5                  # invocation ids (and with them the iteration order of id sets) derive from it
 
 
 class ThreadWorld:
@@ -58,7 +59,7 @@ class ThreadWorld:
         self.execs: dict[str, int] = {}
         self.task = self.app.task(max_retries=scn.max_retries)(vtasks.tree_task)
         vtasks.WORLD = self
-        vclock.install(self.clock, uuid_seed=5)
+        vclock.install(self.clock, uuid_seed=scn.uuid_seed)
         instrument.patch_threading(cw.THREADING_MODULES)
         instrument.patch_sqlite()
         sched.SThread.policy = staticmethod(lambda t: "inline" if getattr(t._target, "__name__", "") == "_add_histories" else "actor")  # type: ignore[assignment]
@@ -91,6 +92,8 @@ class ThreadWorld:
             if kind == "retry" and n <= spec.get("fail_times", 1):
                 raise RetryError(f"{name}#{n}")
             total = spec.get("value", 1)
+            for _ in range(spec.get("work", 0)):          # a body that takes a while: scheduling points inside it
+                sched.point("call", "work")
             children = spec.get("children", [])
             if kind == "group" and children:
                 grp = self.task.parallelize([(json.dumps(c),) for c in children])
